@@ -21,7 +21,7 @@ static void run_case(vh_ctx *c)
 {
   size_t n = (size_t)vh_int(c, 2, 60), p = (size_t)vh_int(c, 1, 25), i, j, k, npc, rank;
   int shape = (int)vh_int(c, 0, 3), scaling = (int)vh_int(c, -1, 5);
-  size_t nconst = 0, nmean, nscale, nprocs, npc2;
+  size_t nconst = 0, nmean, nscale, nprocs, npc2; double discarded_tail = 0;
   ldm *X, *T, *E;
   ld *mean, *scale, e0norm;
   matrix *mx, *mx_before, *ps, *back, *res;
@@ -73,6 +73,15 @@ static void run_case(vh_ctx *c)
     if (scaling == 5 && sd != 0 && fabsl(mean[j]) < 0.05L) bad_domain = 1;
   }
   rank = or_rank(T, 1e-9L);
+  { /* what the numerical rank leaves out, in the units of the data: the singular values below 1e-9 sigma_1 are no component a caller asks for,
+       but a back-transform of `rank` components legitimately misses them (thorough seed 31 case 84096: a nearly collinear pair beside a column
+       with a level-scaled amplitude of 2e4) */
+    size_t mn = n < p ? n : p; ld *sv = calloc(mn + 1, sizeof(ld)), t2 = 0, ms = 1;
+    or_svd(T, sv, NULL, NULL);
+    for (j = rank; j < mn; j++) t2 += sv[j] * sv[j];
+    for (j = 0; j < nscale; j++) if (fabsl(scale[j]) > ms) ms = fabsl(scale[j]);
+    discarded_tail = (double)(sqrtl(t2) * ms); free(sv);
+  }
   vh_class(c, "n%zu-p%zu-sc%d-%s", n < 5 ? n : n < 15 ? 10 : n < 35 ? 30 : 60, p < 4 ? p : p < 10 ? 8 : 25, scaling,
            n > p ? "tall" : n == p ? "square" : "wide");
   vh_desc(c, "rows=%zu cols=%zu scaling=%d const_cols=%zu rank=%zu", n, p, scaling, nconst, rank);
@@ -179,8 +188,8 @@ static void run_case(vh_ctx *c)
       PCAIndVarPredictor(m->scores, m->loadings, m->colaverage, m->colscaling, npc, back);
       {
         double xs = matrix_maxabs(mx) + 1e-300, d = matrix_maxdiff(back, mx);
-        vh_max("max_backtransform_rel", d / xs);
-        if (!(d <= 1e-7 * xs)) vh_fail(c, "PCAIndVarPredictor|fullrank-reconstruction", "max |x - backtransform| = %.3g (max|x| = %.3g)", d, xs);
+        vh_max("max_backtransform_rel", d / xs); vh_max("max_backtransform_allowance_for_discarded_singular_values_rel", discarded_tail / xs);
+        if (!(d <= 1e-7 * xs + 4 * discarded_tail)) vh_fail(c, "PCAIndVarPredictor|fullrank-reconstruction", "max |x - backtransform| = %.3g (max|x| = %.3g)", d, xs);
       }
       DelMatrix(&back);
     }
